@@ -1,5 +1,6 @@
 import CaoModel.Sem
 import CaoProofs.Lemmas.CompilerLemmas
+import CaoProofs.Lemmas.WithStd
 /-!
 # Name resolution, module flattening and the jump table (helper lemmas for C08)
 -/
@@ -916,8 +917,9 @@ theorem ensureInvariants_eq (m : Module) (ns : List String) :
 
 /-! ### `intoIrStream` -/
 
-/-- the tree `intoIrStream` works on: the standard library is injected as submodule `std` -/
-def withStd (m std : Module) : Module := .mk (m.submodules ++ [("std", std)]) m.functions m.imports
+/- (`withStd`: the tree `intoIrStream` works on, the standard library injected as submodule `std` —
+    defined in `Lemmas/WithStd.lean`) -/
+example (m std : Module) : withStd m std = Module.mk (m.submodules ++ [("std", std)]) m.functions m.imports := rfl
 
 /-- the stream `intoIrStream` returns for a well-formed tree: all functions of the tree in walk
 order, with handles `from_u64(position in the walk)`, then `main` swapped to the front -/
